@@ -66,9 +66,22 @@ def _geno(n, p, seed):
     return [[[r.randint(0, 1) for _ in range(p)] for _ in range(n)] for _ in range(2)]
 
 
+_PG_CACHE = {}
+
+
 def _pgmat(n, p, nchr=1, seed=0, perm=None, relabel=False):
     """small DensePhasedGenotypeMatrix; candidate a of the returned population is
-    candidate perm[a] of the base population (perm=None: identity)"""
+    candidate perm[a] of the base population (perm=None: identity).  Cached (never mutated by the code under test;
+    the ring checks that the configuration holds this very object)."""
+    key = (n, p, nchr, seed, None if perm is None else tuple(perm), relabel)
+    if key not in _PG_CACHE:
+        if len(_PG_CACHE) > 64:
+            _PG_CACHE.clear()
+        _PG_CACHE[key] = _pgmat_build(n, p, nchr, seed, perm, relabel)
+    return _PG_CACHE[key]
+
+
+def _pgmat_build(n, p, nchr, seed, perm, relabel):
     numpy = _np()
     from pybrops.popgen.gmat.DensePhasedGenotypeMatrix import DensePhasedGenotypeMatrix
     g = _geno(n, p, seed)
@@ -140,7 +153,7 @@ def _improving_exchange(rows):
     return None
 
 
-def _check_shape(x, ncross, nparent):
+def _check_shape(x, ncross, nparent, ntaxa=None):
     numpy = _np()
     if not isinstance(x, numpy.ndarray):
         return "xconfig is %s, not ndarray" % type(x).__name__
@@ -148,6 +161,11 @@ def _check_shape(x, ncross, nparent):
         return "xconfig dtype %s is not integer" % x.dtype
     if x.shape != (ncross, nparent):
         return "xconfig shape %s != (%d,%d)" % (x.shape, ncross, nparent)
+    if ntaxa is not None:
+        for row in x:
+            for v in row:
+                if not (0 <= int(v) < ntaxa):
+                    return "xconfig entry %d is not a candidate index of the %d-candidate population" % (int(v), ntaxa)
     return None
 
 
@@ -256,9 +274,9 @@ def _cfg_class(kind):
     return getattr(importlib.import_module(mod), name)
 
 
-def _check_indiv_xconfig(kind, x, decn_list, ncross, nparent):
+def _check_indiv_xconfig(kind, x, decn_list, ncross, nparent, ntaxa=None):
     """all clauses for one sampled configuration of an individual-level encoding"""
-    m = _check_shape(x, ncross, nparent)
+    m = _check_shape(x, ncross, nparent, ntaxa)
     if m:
         return "shape", m
     rows = _rows(x)
@@ -297,20 +315,20 @@ def run_case_cfg(case):
     m = _check_stored(cfg, pg, ncross, nparent, nm_exp, np_exp)
     if m:
         return True, m, "stored"
-    cl, m = _check_indiv_xconfig(kind, cfg.xconfig, decn_list, ncross, nparent)
+    cl, m = _check_indiv_xconfig(kind, cfg.xconfig, decn_list, ncross, nparent, case["ntaxa"])
     if cl:
         return True, "after construction: " + m, cl
     for s in range(case.get("resample", 0)):
         ret = cfg.sample_xconfig(return_xconfig=True)
         if ret is None or not numpy.array_equal(ret, cfg.xconfig):
             return True, "sample_xconfig(return_xconfig=True) did not return the stored xconfig (resample %d)" % s, "return"
-        cl, m = _check_indiv_xconfig(kind, cfg.xconfig, decn_list, ncross, nparent)
+        cl, m = _check_indiv_xconfig(kind, cfg.xconfig, decn_list, ncross, nparent, case["ntaxa"])
         if cl:
             return True, "resample %d: %s" % (s, m), cl
     ret = cfg.sample_xconfig(return_xconfig=False)
     if ret is not None:
         return True, "sample_xconfig(return_xconfig=False) returned %r" % (ret,), "return"
-    cl, m = _check_indiv_xconfig(kind, cfg.xconfig, decn_list, ncross, nparent)
+    cl, m = _check_indiv_xconfig(kind, cfg.xconfig, decn_list, ncross, nparent, case["ntaxa"])
     if cl:
         return True, "last resample: " + m, cl
     if not (decn.dtype == decn0.dtype and numpy.array_equal(decn, decn0)):
@@ -409,13 +427,18 @@ def _rand_decision(rnd, kind, nitems, k):
 
 def gen_cfg_cases(rnd, tier):
     maxcross = 4 if tier == "quick" else 6
-    reps = 5 if tier == "quick" else 28
+    reps = 12 if tier == "quick" else 110
     for kind in ("subset", "integer", "binary", "real"):
         for ncross in range(1, maxcross + 1):
             for nparent in (1, 2, 3, 4):
                 for _ in range(reps):
                     ntaxa = rnd.choice([1, 2, 3, 5, 8]) if tier == "quick" else rnd.choice([1, 2, 3, 4, 5, 6, 8, 10])
+                    if rnd.random() < 0.06:
+                        ntaxa = 300     # candidate indices beyond int8 / uint8
                     decn, dtype = _rand_decision(rnd, kind, ntaxa, ncross * nparent)
+                    if ntaxa == 300 and kind == "subset":
+                        decn = [299 - d if d < 30 else d for d in decn[:12]]
+                        decn = sorted(set(decn), key=decn.index)
                     nm, npg = _rand_design(rnd, ncross)
                     yield dict(kind=kind, ncross=ncross, nparent=nparent, ntaxa=ntaxa, decn=decn, dtype=dtype,
                                nmating=nm, nprogeny=npg, rng=_rand_rng(rnd), resample=rnd.choice([0, 1, 2]))
@@ -551,8 +574,8 @@ def run_case_ix(case):
     return False, "", ""
 
 
-def _check_mate_xconfig(kind, x, xmap_rows, decn_list, ncross, nparent):
-    m = _check_shape(x, ncross, nparent)
+def _check_mate_xconfig(kind, x, xmap_rows, decn_list, ncross, nparent, ntaxa=None):
+    m = _check_shape(x, ncross, nparent, ntaxa)
     if m:
         return "shape", m
     rows = _rows(x)
@@ -597,19 +620,19 @@ def run_case_mate(case):
     m = _check_stored(cfg, pg, ncross, nparent, nm_exp, np_exp)
     if m:
         return True, m, "stored"
-    cl, m = _check_mate_xconfig(kind, cfg.xconfig, xm, decn_list, ncross, nparent)
+    cl, m = _check_mate_xconfig(kind, cfg.xconfig, xm, decn_list, ncross, nparent, ntaxa)
     if cl:
         return True, "after construction: " + m, cl
     for s in range(case.get("resample", 0)):
         ret = cfg.sample_xconfig(return_xconfig=True)
         if ret is None or not numpy.array_equal(ret, cfg.xconfig):
             return True, "sample_xconfig(return_xconfig=True) did not return the stored xconfig", "return"
-        cl, m = _check_mate_xconfig(kind, cfg.xconfig, xm, decn_list, ncross, nparent)
+        cl, m = _check_mate_xconfig(kind, cfg.xconfig, xm, decn_list, ncross, nparent, ntaxa)
         if cl:
             return True, "resample %d: %s" % (s, m), cl
     if cfg.sample_xconfig(return_xconfig=False) is not None:
         return True, "sample_xconfig(return_xconfig=False) returned a value", "return"
-    cl, m = _check_mate_xconfig(kind, cfg.xconfig, xm, decn_list, ncross, nparent)
+    cl, m = _check_mate_xconfig(kind, cfg.xconfig, xm, decn_list, ncross, nparent, ntaxa)
     if cl:
         return True, "last resample: " + m, cl
     if not numpy.array_equal(decn, decn0) or not numpy.array_equal(xmap, xmap0):
@@ -635,7 +658,7 @@ def gen_mate_cases(rnd, tier):
         for k in (1, 2, 3, 4):
             for unique in (0, 1):
                 yield dict(fn="xmapix", n=n, k=k, unique=unique)
-    reps = 3 if tier == "quick" else 14
+    reps = 8 if tier == "quick" else 60
     kmap = {"submate": "subset", "intmate": "integer", "binmate": "binary", "realmate": "real"}
     for kind in ("submate", "intmate", "binmate", "realmate"):
         for nparent in (1, 2, 3) if tier == "quick" else (1, 2, 3, 4):
@@ -851,7 +874,7 @@ def run_case_trunc(case):
     for perm, relabel in variants:
         cfg, mo, pg, g, crit = _trunc_select(case, perm, relabel)
         tag = "permuted" if perm else ("relabelled" if relabel else "base")
-        m = _check_shape(cfg.xconfig, ncross, nparent)
+        m = _check_shape(cfg.xconfig, ncross, nparent, n)
         if m:
             return True, "%s: %s" % (tag, m), "shape"
         if cfg.pgmat is not pg:
@@ -863,8 +886,8 @@ def run_case_trunc(case):
             return True, "%s: configuration decision %s is not the optimiser's solution %s" % (tag, decn, sol), "decision-forwarded"
         if proto in ("EBV", "GEBV"):
             k = ncross * nparent
-            if len(set(decn)) != len(decn):
-                return True, "%s: chosen subset %s has repeated members" % (tag, decn), "top-k"
+            if len(set(decn)) != len(decn) or min(decn) < 0 or max(decn) >= n:
+                return True, "%s: chosen subset %s has repeated members or non-candidates" % (tag, decn), "top-k"
             m = _top_check([crit[i] for i in decn], crit, k, tol)
             if m:
                 return True, "%s: %s" % (tag, m), "top-k"
@@ -905,7 +928,7 @@ def _dy(rnd, lo=-8, hi=8, den=4):
 
 
 def gen_trunc_cases(rnd, tier):
-    reps = 70 if tier == "quick" else 900
+    reps = 600 if tier == "quick" else 9000
     for it in range(reps):
         proto = ("EBV", "GEBV", "OHV")[it % 3]
         t = rnd.choice([1, 1, 2])
@@ -976,7 +999,7 @@ _FAM = {"EBV": "EstimatedBreedingValue", "GEBV": "GenomicEstimatedBreedingValue"
 _MATE_FAM = ("UC", "OHV")
 
 
-def _stub_algo(enc, nsamp, dseed, record):
+def _stub_algo(enc, nsamp, dseed, record, role):
     """ring-side optimiser: evaluates the REAL problem on `nsamp` distinct random decisions and returns the best one
     (single objective) or the non-dominated ones (multi objective)"""
     import importlib
@@ -992,6 +1015,8 @@ def _stub_algo(enc, nsamp, dseed, record):
             pass
 
         def minimize(self, prob, miscout=None, **kwargs):
+            if (role == "so") != (int(prob.nobj) == 1):
+                record["wrong-role"] = "%s optimiser given a problem with %d objectives" % (role, int(prob.nobj))
             r = random.Random(dseed)
             nd = int(prob.ndecn)
             X, seen = [], set()
@@ -1050,7 +1075,7 @@ def _stub_algo(enc, nsamp, dseed, record):
     return RingOptimizer()
 
 
-def _flow_protocol(case, algo, ndlog):
+def _flow_protocol(case, soalgo, moalgo, ndlog):
     import importlib
     numpy = _np()
     fam, enc = case["fam"], case["enc"]
@@ -1075,7 +1100,7 @@ def _flow_protocol(case, algo, ndlog):
     npg, _ = _as_count_array(case["nprogeny"], ncross)
     nobj = case["nobj"]
     kw = dict(ntrait=case["t"], ncross=ncross, nparent=case["nparent"], nmating=nm, nprogeny=npg, nobj=nobj,
-              soalgo=algo, moalgo=algo, rng=numpy.random.RandomState(case["gseed"] + 7))
+              soalgo=soalgo, moalgo=moalgo, rng=numpy.random.RandomState(case["gseed"] + 7))
     if nobj == 1:
         kw.update(obj_trans=_ot_wsum, obj_trans_kwargs={"w": [1.0] * case["t"]})
     else:
@@ -1103,8 +1128,9 @@ def run_case_flow(case):
     gmat = DenseUnphasedGenotyping().genotype(pg)
     bvmat = gpmod.gebv(gmat)
     record, ndlog = {}, []
-    algo = _stub_algo(enc, case["nsamp"], case["dseed"], record)
-    prot = _flow_protocol(case, algo, ndlog)
+    soalgo = _stub_algo(enc, case["nsamp"], case["dseed"], record, "so")
+    moalgo = _stub_algo(enc, case["nsamp"], case["dseed"], record, "mo")
+    prot = _flow_protocol(case, soalgo, moalgo, ndlog)
     mo = {}
     cfg = prot.select(pgmat=pg, gmat=gmat, ptdf=None, bvmat=bvmat, gpmod=gpmod, t_cur=0, t_max=1, miscout=mo)
     mate = fam in _MATE_FAM
@@ -1118,6 +1144,8 @@ def run_case_flow(case):
         return True, m, "stored"
     if record.get("calls") != 1:
         return True, "optimiser called %r times" % record.get("calls"), "optimiser-calls"
+    if record.get("wrong-role"):
+        return True, record["wrong-role"], "optimiser-calls"
     key = "sosoln" if nobj == 1 else "mosoln"
     if key not in mo:
         return True, "miscout lacks %s" % key, "solution-forwarded"
@@ -1162,9 +1190,9 @@ def run_case_flow(case):
         if xmap != xm:
             return True, "protocol cross map differs from the sorted-tuple enumeration", "cross-map"
         kind = {"Subset": "submate", "Integer": "intmate", "Binary": "binmate", "Real": "realmate"}[enc]
-        cl, m = _check_mate_xconfig(kind, cfg.xconfig, xm, decn, ncross, nparent)
+        cl, m = _check_mate_xconfig(kind, cfg.xconfig, xm, decn, ncross, nparent, n)
     else:
-        cl, m = _check_indiv_xconfig(enc.lower(), cfg.xconfig, decn, ncross, nparent)
+        cl, m = _check_indiv_xconfig(enc.lower(), cfg.xconfig, decn, ncross, nparent, n)
     if cl:
         return True, m, cl
     return False, "", ""
@@ -1207,7 +1235,7 @@ def _flow_case(rnd, fam, enc, nobj, uc_integer_multi=False):
 
 
 def gen_flow_cases(rnd, tier):
-    reps = 2 if tier == "quick" else 14
+    reps = 7 if tier == "quick" else 100
     for fam in ("EBV", "GEBV", "OCS", "UC", "OHV", "RS"):
         for enc in ("Subset", "Real", "Integer", "Binary"):
             for nobj in (1, 2):
